@@ -805,6 +805,14 @@ static ares_status_t process_answer(ares_channel_t      *channel,
     goto cleanup;
   }
 
+  /* The reply must arrive on the connection the query is currently assigned
+   * to.  Anything else is a stale reply (the query has since been re-sent
+   * elsewhere) or comes from a different server than the one being asked. */
+  if (query->conn != conn) {
+    status = ARES_SUCCESS;
+    goto cleanup;
+  }
+
   /* Both the query id and the questions must be the same. We will drop any
    * replies that aren't for the same query as this is considered invalid. */
   if (!same_questions(query, rdnsrec)) {
